@@ -21,6 +21,10 @@ META = {
                    'reader is modelled (it warns and keeps the list instead of raising) and "first element schema-allowed <-> supplied list stored" '
                    'is proved for every value (later elements are never checked: C19_list_rest_refuted, recorded finding).  The pinned tree refutes the names clause (30 accepted names not published: '
                    'C19_names_refuted) and one bound (Maximum Drawdown: C19_bound_refuted); both are recorded findings.'),
+    'level_text_round2': ('Round 2: the input tables of the generated parameter reference (.rst; GEOPHIRES-X and HIP-RA-X) are parsed into the same '
+                          'entry type and compared with the ParameterDicts (names both ways; rendered type, preferred unit, default, Min, Max per '
+                          'consistently declared parameter: C19_rst_fields / _meaning / _enforced_float); real reports of example runs (incl. add-ons and '
+                          'S-DAC-GT): every result-schema field whose label the report prints with a value is extracted with a value (C19_report_fields).'),
     'level_note': ('Trusted: Coq kernel + vm_compute; the generators (unverified Python) that dump declarations, run the schema generator, read the '
                    'committed files and hash entries (SHA-256 prefix, for committed = generated); the reader model is tied to ReadParameter by C07 '
                    'and re-tied here at every schema bound. Defaults are compared within 1e-9 relative (the generator prettifies decimals), bounds '
@@ -255,6 +259,80 @@ def enforce_layer(ctx):
                         expected='accepted and used iff the schema entry allows the value', observed=rp.show(c['obs']))
 
 
+RST = {'geophires': ('geo_classes', 'gen_rst'), 'hip-ra-x': ('hip_classes', 'gen_hip_rst')}
+RST_COLS = {'f_type': 'Default Value Type', 'f_pref': 'Preferred Units', 'f_min': 'Min', 'f_max': 'Max', 'f_default': 'Default Value'}
+
+
+def rst_layer(ctx):
+    """the input tables of the generated parameter reference (.rst) against the ParameterDicts: names both ways, and per
+    consistently declared parameter the rendered type, preferred unit, default, Min, Max"""
+    rows, d = tables(ctx)
+    for prog, (ck, rk) in RST.items():
+        t = [r for r in rows if r['cls'] in d[ck]]
+        T = f'(rows_of {ck} param_table)'
+        sch = d[rk]
+        jobs = [(f'rst-missing-{prog}', f'bad (name_published {rk}) {T}', len(t)), (f'rst-extra-{prog}', f'bad (name_accepted {T}) {rk}', len(sch))] + \
+               [(f'rst-{f}-{prog}', f'bad (entry_ok {f} {T}) {rk}', len(sch)) for f in RST_COLS]
+        res = kbad_many(ctx, jobs)
+        ctx.count('rst', evaluations=len(t) + len(sch) * (1 + len(RST_COLS)), nontrivial_keys=[(prog, e['name'], f) for e in sch for f in RST_COLS], rows={prog: len(sch)})
+        for n in sorted({t[i]['name'] for i in res[0]}):
+            ctx.violate('property', f'rst-names:missing:{prog}:{n}', f'input parameter {n!r} is accepted by {sorted({r["cls"] for r in t if r["name"] == n})} '
+                        f'but has no row in the generated {prog} parameter reference (.rst)', inp={'check': 'rst', 'program': prog, 'name': n})
+        for i in res[1]:
+            ctx.violate('property', f'rst-names:extra:{prog}:{sch[i]["name"]}', f'the generated {prog} parameter reference lists {sch[i]["name"]!r}, which no module accepts',
+                        inp={'check': 'rst', 'program': prog, 'name': sch[i]['name']})
+        for f, badi in zip(RST_COLS, res[2:]):
+            for i in badi:
+                e = sch[i]
+                rs = [r for r in t if r['name'] == e['name']]
+                ctx.violate('property', f'rst-field:{prog}:{e["name"]}:{RST_COLS[f]}',
+                            f'{prog} parameter reference row {e["name"]!r}: {RST_COLS[f]} is rendered as {e["raw"][RST_COLS[f]]!r}, the simulator has ({decl_text(rs)}; '
+                            f'preferred units {rs[0]["pref"]!r})', inp={'check': 'rst', 'program': prog, 'name': e['name'], 'field': f}, expected=decl_text(rs), observed=e['raw'])
+        ctx.sample('rst', {'program': prog, 'row': sch[0]['name'], 'rendered': sch[0]['raw']})
+
+
+REPORT_EXAMPLES = ('example1.txt', 'example1_addons.txt', 'S-DAC-GT.txt', 'example2.txt', 'example3.txt', 'example10_HP.txt')
+
+
+def printed_labels(report, fields):
+    """(category, field) of the result schema whose label a report line prints: the line, stripped, starts with the
+    label followed by ':' (value fields) or ' =' (equal-sign fields) - independent of the client's own matching"""
+    lines = [ln.strip() for ln in report.splitlines() if ln.split(':', 1)[-1].strip() != 'N/A']      # 'N/A' prints no value
+    return [(c, f) for c, f in fields if any(ln.startswith(f + ':') or ln.startswith(f + ' =') for ln in lines)]
+
+
+def reports_layer(ctx):
+    """real runs: every result-schema field that the report prints comes back from the client with a value"""
+    from geophires_x_client import GeophiresXResult
+    from lib import runner
+    rows, d = tables(ctx)
+    fields = [(e['category'], e['field']) for e in d['gen_result']]
+    names = REPORT_EXAMPLES[:ctx.n(4, len(REPORT_EXAMPLES))]
+    res = runner.run_many(ctx, [(fw.REPO / 'tests' / 'examples' / n).read_text() for n in names])
+    cs = paramtable.cs
+    for n, r in zip(names, res):
+        if not r['ok'] or not r['report']:
+            ctx.violate('corr', f'report-run:{n}', f'example {n} no longer runs: {r["error"]}', inp={'check': 'report', 'example': n})
+            continue
+        path = Path(ctx.scratch, f'report_{n}.out')
+        path.write_text(r['report'])
+        got = GeophiresXResult(str(path)).result
+        printed = printed_labels(r['report'], fields)
+        extracted = [(c, f) for c, f in fields if isinstance(got.get(c, {}).get(f), dict) and got[c][f].get('value') is not None
+                     or isinstance(got.get(c, {}).get(f), (str, int, float))]
+        term = ('bad (report_field_ok [' + '; '.join(f'({cs(c)}, {cs(f)})' for c, f in printed) + '] ['
+                + '; '.join(f'({cs(c)}, {cs(f)})' for c, f in extracted) + ']) gen_result')
+        badi = kbad(ctx, f'report-{n}', term, len(d['gen_result']))
+        ctx.count('reports', evaluations=len(fields), nontrivial_keys=[(n, c, f) for c, f in printed], printed={n: len(printed)}, extracted={n: len(extracted)})
+        ctx.sample('reports', {'example': n, 'printed schema fields': len(printed), 'extracted': len(extracted)})
+        for i in badi:
+            c, f = fields[i]
+            line = next((ln for ln in r['report'].splitlines() if ln.strip().startswith(f + ':') or ln.strip().startswith(f + ' =')), '')
+            ctx.violate('property', f'report-field:{c}:{f}', f'example {n}: the report prints {line.strip()!r} but the client returns {got.get(c, {}).get(f)!r} for '
+                        f'result-schema field {c!r}/{f!r}', inp={'check': 'report', 'example': n, 'category': c, 'field': f}, expected='extracted with a value',
+                        observed=got.get(c, {}).get(f))
+
+
 LIST_FAMILIES = (('standard', 'tests/examples/example1.txt'), ('direct-use', 'tests/examples/example2.txt'))
 PER_SEGMENT = ('Gradient ', 'Thickness ', 'Number of Segments')     # lines that would overwrite / truncate the lists
 
@@ -339,7 +417,7 @@ def fw_pool(fn, jobs):
 def correspondence(ctx, proofs_ok=True):
     paramtable.build_gen(ctx, ('Gen/ParamTable.vo', 'Gen/SchemaTables.vo'))
     import time
-    for layer in (names_layer, fields_layer, committed_layer, result_layer, enforce_layer, list_layer):
+    for layer in (names_layer, fields_layer, committed_layer, result_layer, enforce_layer, list_layer, rst_layer, reports_layer):
         t = time.time()
         layer(ctx)
         ctx.note(f'{layer.__name__}: {time.time() - t:.1f} s')
@@ -351,7 +429,7 @@ def replay(ctx, data):
         g(ctx)
     paramtable.build_gen(ctx, ('Gen/ParamTable.vo', 'Gen/SchemaTables.vo'))
     layer = {'names': names_layer, 'field': fields_layer, 'committed': committed_layer, 'result-field': result_layer, 'enforce': enforce_layer,
-             'enforce-list': list_layer}[inp['check']]
+             'enforce-list': list_layer, 'rst': rst_layer, 'report': reports_layer}[inp['check']]
     layer(ctx)
     rows, d = tables(ctx)
     name = inp.get('name') or inp.get('field')
